@@ -794,9 +794,14 @@ def _check_surplus_generator(prog: Program, rep: Report, t_s: ClassInfo, fs: ast
         if isinstance(n, (ast.For, ast.comprehension)):
             iter_vars.update(x.id for x in ast.walk(n.target) if isinstance(x, ast.Name))
     guards: List[str] = []
+    none_default = {a_ for a_, d_ in defaults.items() if isinstance(d_, ast.Constant) and d_.value is None and a_ not in passed}
     for n in ast.walk(g):
         if isinstance(n, (ast.Yield, ast.YieldFrom)):
-            guards.extend(path_conditions(body_without_docstring(g), n) or [])
+            conds_ = path_conditions(body_without_docstring(g), n) or []
+            # a parameter that the tagger leaves at its default None: `p is not None` paths are not taken, `p is None` holds
+            if any(c_ in {f"{a_} is not None" for a_ in none_default} for c_ in conds_):
+                continue
+            guards.extend(c_ for c_ in conds_ if c_ not in {f"{a_} is None" for a_ in none_default})
         if isinstance(n, ast.comprehension):
             for i in n.ifs:
                 guards.extend(atoms(i))
